@@ -32,6 +32,8 @@ RULE = ("bipartite ensembles (2..4 states on 2x2 and 2x3 [thorough: also 3x2], r
         "vectors, pure or mixed density matrices, dyadic priors; kinds: random, orthogonal entangled basis, product-vs-entangled, Bell corpus) x primal/dual form x "
         "transposed party; per instance the Lean checker certifies the PPT optimum [lo, hi] for the exact image of the inputs; non-trivial = certified interval narrower "
         "than 1e-4 and max prior + 1e-2 <= value <= 1 - 1e-2 ; distinct = hash of the instance and call form; hierarchy cases: level 1 and 2 (level 2 on 2x3 only in the thorough tier); "
+        "dim argument of the hierarchy in every documented form: list [dA, dB], scalar dA (also for dA != dB: dim=2 on 2x3, dim=3 on 3x2) and omitted (square); the "
+        "scalar / omitted form must give the level-1 value of the list form and lie in the certified interval of the [dA, dB] cut; "
         "symext_embedding: ensembles of 2..3 states on 2x2, 2x3, 3x2 (thorough 3x3) x levels 1, 2 (3 on 2x2; thorough also 2x3) x exact rational separable measurements of the "
         "kinds projective / locc / mixture (4..~20 product outcomes, complex), outcomes attributed by posterior weight or at random; non-trivial = at least two states "
         "receive an outcome and the ensemble is complex or the dimensions are unequal; "
@@ -283,6 +285,25 @@ def _dms_exact(states):
     return out
 
 
+def _dim_arg(inst):
+    """(dim argument, form) for symmetric_extension_hierarchy: every documented form - the list [dA, dB], the scalar dA (the code expands it to
+    [dA, dim_xy / dA], also for dA != dB) and omitted (square systems only)"""
+    dA, dB = inst["dA"], inst["dB"]
+    form = inst.get("dim_form") or ("none" if (dA == dB and inst.get("dim_default", False)) else "list")
+    if form == "none" and dA != dB:
+        form = "list"
+    return {"none": None, "scalar": int(dA), "list": [dA, dB]}[form], form
+
+
+def _set_dim_form(prs, inst):
+    """in place: the form of the dim argument, drawn from the presentation stream (an instance already marked dim_default on a square system keeps 'omitted')"""
+    if inst["dA"] == inst["dB"] and inst.get("dim_default", False):
+        inst["dim_form"] = "none"
+    else:
+        inst["dim_form"] = ["list", "scalar"][int(prs.integers(2))]
+    return inst
+
+
 def _base(inst):
     b = {kk: inst[kk] for kk in ("dA", "dB", "k", "cplx", "form", "kind", "probs")}
     b["states"] = [np.asarray(s) for s in inst["states"]]
@@ -476,7 +497,8 @@ def work_hierarchy(task, res: Result):
         states = present_list(prng, [np.array(s, copy=True) for s in inst["states"]], force_real=inst.get("real_idx", ()))
         before = copy.deepcopy(states)
         ids = [id(s) for s in states]
-        dim = None if (dA == dB and inst.get("dim_default", False)) else [dA, dB]
+        dim, dim_form = _dim_arg(inst)
+        desc["dim_form"] = dim_form
         arg_probs = list(probs) if inst["probs_given"] else None
         guard = Pure(states, arg_probs, dim)
         v2 = None
@@ -507,6 +529,18 @@ def work_hierarchy(task, res: Result):
             if abs(v2 - v) > 2 * TAU_SCS:
                 res.violation(f"symmetric_extension_hierarchy(level={level}): a second call on the same objects returns {v2:.6f}, the first returned {v:.6f}",
                               {"function": "symmetric_extension_hierarchy", "args": desc, "values": [v, v2], "presentation": describe(states), "check": "repeat"})
+        if level == 1 and dim_form != "list":
+            # the scalar / omitted form denotes the cut [dA, dB]: same value as the list form
+            try:
+                v_list = float(np.real(symmetric_extension_hierarchy(present_list(call_rng(inst.get("pres"), "hier-list", level), inst["states"], force_real=inst.get("real_idx", ())),
+                                                                     probs=arg_probs, level=level, dim=[dA, dB])))
+                res.count(f"hier/dim-form-{dim_form}-vs-list/{'unequal' if dA != dB else 'square'}")
+                if abs(v - v_list) > 2 * TAU_SCS:
+                    res.violation(f"symmetric_extension_hierarchy(level=1) on {dA}x{dB}: dim={dim!r} gives {v:.6f}, dim=[{dA}, {dB}] gives {v_list:.6f}",
+                                  {"function": "symmetric_extension_hierarchy", "args": desc, "impl": v, "list_form": v_list, "certified": [lo, hi], "tau": TAU_SCS, "check": "dim-form",
+                                   "theorem": "documented argument forms denote the same cut [dA, dB]"})
+            except Exception as e:  # noqa: BLE001
+                res.violation(f"symmetric_extension_hierarchy(level=1, dim=[{dA}, {dB}]) raises {type(e).__name__}: {str(e)[:120]}", {"function": "symmetric_extension_hierarchy", "args": desc, "exception": f"{type(e).__name__}: {str(e)[:300]}"})
         if level == 1 and ok_iv and not (lo - TAU_SCS <= v <= hi + TAU_SCS):
             res.violation(f"symmetric_extension_hierarchy(level=1) = {v:.6f} differs from the certified PPT optimum [{lo:.6f}, {hi:.6f}]",
                           {"function": "symmetric_extension_hierarchy", "args": desc, "impl": v, "certified": [lo, hi], "tau": TAU_SCS, "theorem": "checkPPTPrimal_sound / checkPPTDual_sound",
@@ -747,6 +781,10 @@ def _symext_vars(P, k, D, Dext, rhos_f, probs):
     objv = sorted(P.objective.variables(), key=lambda v: v.id)
     rest = sorted([v for v in P.variables() if all(v is not o for o in objv)], key=lambda v: v.id)
     if len(objv) != k or len(rest) != k or any(tuple(v.shape) != (D, D) for v in objv) or any(tuple(v.shape) != (Dext, Dext) for v in rest):
+        if len(objv) == k and len(rest) == k and all(len(v.shape) == 2 and v.shape[0] == v.shape[1] for v in objv + rest):
+            # the right number of square variables of another size: the code read the dimensions differently (a verdict about the code, not about the harness)
+            raise _WrongSizes(f"expected {k} measurement variables {D}x{D} and {k} extension variables {Dext}x{Dext}, the program has "
+                              f"{[tuple(int(t) for t in v.shape) for v in objv]} / {[tuple(int(t) for t in v.shape) for v in rest]}")
         raise InfraError(f"symmetric_extension_hierarchy: expected {k} measurement variables {D}x{D} in the objective and {k} extension variables {Dext}x{Dext}, "
                          f"found {[v.shape for v in objv]} / {[v.shape for v in rest]}")
     how = []
@@ -795,6 +833,10 @@ def _symext_vars(P, k, D, Dext, rhos_f, probs):
 
 class _Captured(Exception):
     pass
+
+
+class _WrongSizes(Exception):
+    """the captured program has variables of sizes that do not belong to the cut [dA, dB] at this level"""
 
 
 def _capture(fn):
@@ -870,7 +912,8 @@ def work_symext_embed(task, res: Result):
     D, Dext = dA * dB, dA * dB ** level
     base = dict(_base(inst), fn="symext_embed", level=level, dim=[dA, dB])
     states = present_list(call_rng(inst.get("pres"), "symext", level), [np.array(s, copy=True) for s in inst["states"]], force_real=inst.get("real_idx", ()))
-    dim = None if (dA == dB and inst.get("dim_default", False)) else [dA, dB]
+    dim, dim_form = _dim_arg(inst)
+    base["dim_form"] = dim_form
     try:
         got = _capture(lambda: symmetric_extension_hierarchy(states, probs=(list(probs) if inst["probs_given"] else None), level=level, dim=dim))
     except Exception as e:  # noqa: BLE001
@@ -885,7 +928,13 @@ def work_symext_embed(task, res: Result):
     res.count("symext/constraints-captured", len(P.constraints))
     rhos = _dms_exact(inst["states"])
     rhos_f = [r.to_float() for r in rhos]
-    mvars, xvars, how = _symext_vars(P, k, D, Dext, rhos_f, probs)
+    try:
+        mvars, xvars, how = _symext_vars(P, k, D, Dext, rhos_f, probs)
+    except _WrongSizes as e:
+        res.case(base, True, f"symext/level{level}/wrong-sizes")
+        res.violation(f"symmetric_extension_hierarchy(level={level}, dim={dim!r}) on a {dA}x{dB} system ({k} states): {e} - the dim argument is not read as the cut [{dA}, {dB}]",
+                      {"function": "symmetric_extension_hierarchy (variables)", "args": base, "theorem": "separable_meas_feasible (extension space X (x) Y^(x)level)"})
+        return
     res.count(f"symext/variables-identified-by/{how}")
     worst = 0.0
     for n, mj in enumerate(task["measurements"]):
@@ -976,6 +1025,9 @@ def symext_tasks(ctx, quick, prs=None):
             inst["dim_default"] = bool(dA == dB and rng.integers(2))
             if prs is not None:
                 vary_ensemble(prs, inst, zero_prior_one_in=8)
+                _set_dim_form(prs, inst)
+                if dA != dB and j == 0:
+                    inst["dim_form"] = "scalar"   # every shape / level at least once in the scalar form
             ms = []
             for t in range(n_meas):
                 kind = ["projective", "locc", "mixture"][t % 3]
@@ -1055,12 +1107,14 @@ def run(ctx, model_ok=True):
     for form in ("dm", "col"):  # level 2 on 2x3 (about 10 s each): two instances in the quick tier, scheduled first
         inst = vary_ensemble(prs, gen_instance(rng, quick, forms=(form,), dims_pool=[(2, 3)]))
         inst["dim_default"] = False
+        inst["dim_form"] = "list" if form == "dm" else "scalar"   # dim=2 on a 2x3 system, levels 1 and 2
         hier.append((inst, [1, 2]))
     hier.append((vary_ensemble(prs, bell_instance("col", rng)), [1, 2]))
     hier.append((vary_ensemble(prs, bell_instance("dm", rng)), [1, 2]))
     for i in range(28 if quick else 200):
         inst = vary_ensemble(prs, gen_instance(rng, quick, forms=("col", "col", "dm", "dm_mixed")), zero_prior_one_in=8)
         inst["dim_default"] = bool(rng.integers(2))
+        _set_dim_form(prs, inst)
         small = inst["dA"] * inst["dB"] == 4
         levels = [1, 2] if (small or (not quick and i % 4 == 0)) else [1]
         hier.append((inst, levels))
@@ -1092,12 +1146,13 @@ def replay(ctx, rec):
     inst = {"dA": a["dA"], "dB": a["dB"], "k": a["k"], "cplx": a["cplx"], "form": a["form"], "kind": a.get("kind", "random"), "probs": a["probs"],
             "probs_given": a.get("probs_given", True), "states": [arr(s) for s in a["states"]],
             "U": arr(a["U"]) if "U" in a else np.eye(a["dA"], dtype=complex), "V": arr(a["V"]) if "V" in a else np.eye(a["dB"], dtype=complex),
-            "pres": a.get("pres"), "real_idx": a.get("real_idx") or []}
+            "pres": a.get("pres"), "real_idx": a.get("real_idx") or [], "dim_form": a.get("dim_form")}
     res = Result()
     fn = a.get("fn", "ppt_distinguishability")
     if fn == "symext_embed":
         inst["probs_given"] = True
         inst["dim_default"] = False
+        inst["dim_form"] = a.get("dim_form") or "list"
         work_symext_embed({"inst": inst, "level": a["level"], "measurements": [{"kind": a.get("kind_meas", "replay"), "povm": a["povm"], "assign": rec.get("assign")}]}, res)
     elif fn in ("symmetric_extension_hierarchy", "hier_monotone"):
         work_hierarchy((inst, [a["level"]] if "level" in a else [1, 2]), res)
